@@ -36,9 +36,16 @@ func caseBegin(i int) {
 func startWatchdog(budget time.Duration, w *bufio.Writer) {
 	curCase.Store(-1)
 	go func() {
+		lastBeat := sim.Heartbeats()
 		for {
 			time.Sleep(200 * time.Millisecond)
 			if curCase.Load() < 0 {
+				continue
+			}
+			if hb := sim.Heartbeats(); hb != lastBeat {
+				// the case started another independent execution: the budget applies to each of them
+				lastBeat = hb
+				caseCPU0.Store(int64(cpuNow()))
 				continue
 			}
 			used := cpuNow() - time.Duration(caseCPU0.Load())
@@ -102,4 +109,3 @@ func recordTapeInChild(rf ReplayFile, budget time.Duration) []uint32 {
 	return tape
 }
 
-var _ = sim.Mix
